@@ -67,6 +67,47 @@ pub fn parse_pos(v: &[u8]) -> Option<Position> {
     serde_json::from_slice(v).ok()
 }
 
+/// true when, in the world's current state, the engine's position sizes do not add up to the vAMM's
+/// net position for some vAMM (the C02 invariant). Such a state is corrupted by a violation that C02
+/// reports at the step that caused it; no check expands it (its successors only repeat the root cause).
+pub fn mirror_broken(w: &World) -> bool {
+    let kv = w.store.0.borrow().clone();
+    let recs = raw_positions_of(&kv, w.engine.as_str());
+    let mut sums: BTreeMap<String, i128> = BTreeMap::new();
+    for (_, v) in recs {
+        if let Some(p) = parse_pos(&v) {
+            *sums.entry(p.vamm.to_string()).or_default() += itoi(&p.size);
+        }
+    }
+    for (vi, va) in w.vamms.iter().enumerate() {
+        if *sums.get(va.as_str()).unwrap_or(&0) != itoi(&w.vstate(vi).total_position_size) {
+            return true;
+        }
+    }
+    false
+}
+
+/// narrow predicate for the known partial-liquidation defect: the slice to liquidate is worth more
+/// than the position's whole open notional, so partial_liquidation() takes its quote-denominated branch
+pub fn slice_worth_more_than_notional(w: &World, so: &StepObs) -> bool {
+    if let Act::Liq { t, v, .. } = &so.act {
+        if let Some(p) = &so.pre_t(*v, t).pos {
+            let plr = w.cfg.plr;
+            if plr == 0 || p.size.is_zero() {
+                return false;
+            }
+            let ps = p.size.value.u128() * plr / D;
+            // quote for the slice at the pre-state (the world is at the post-state: look at the pre-state)
+            let post = w.store.0.borrow().clone();
+            *w.store.0.borrow_mut() = so.pre_snap.kv.clone();
+            let o = w.out_amount(*v, p.direction.clone(), ps).unwrap_or(0);
+            *w.store.0.borrow_mut() = post;
+            return o > p.notional.u128();
+        }
+    }
+    false
+}
+
 // --------------------------------------------------------------------------------------- C02
 pub fn oracle_c02(w: &World, so: &StepObs, out: &mut StepOut) {
     let recs = raw_positions_of(&so.post_snap.kv, w.engine.as_str());
@@ -84,11 +125,13 @@ pub fn oracle_c02(w: &World, so: &StepObs, out: &mut StepOut) {
         let tps = itoi(&so.post.vamms[vi].state.total_position_size);
         let sum = *sums.get(va.as_str()).unwrap_or(&0);
         if sum != tps {
+            let refine = if so.outcome.ok && slice_worth_more_than_notional(w, so) { ":partial-liquidation-slice-worth-more-than-open-notional" } else { "" };
             out.viol(
                 format!(
-                    "C02:sum-mismatch:{}:{}",
+                    "C02:sum-mismatch:{}:{}{}",
                     so.act.kind(),
-                    if so.outcome.ok { "ok" } else { "failed" }
+                    if so.outcome.ok { "ok" } else { "failed" },
+                    refine
                 ),
                 format!(
                     "vamm{} sum of engine position sizes {} != vAMM total_position_size {} after {:?}",
@@ -911,7 +954,7 @@ pub fn oracle_c06_c07(w: &World, so: &StepObs, out: &mut StepOut, do6: bool, do7
                     let flipped = (size_of(pp) > 0) != (size_of(p1) > 0) && !p1.size.is_zero();
                     if dec != exp as i128 || flipped || dec <= 0 {
                         out.viol(
-                            "C06:partial-liquidation-size",
+                            if slice_worth_more_than_notional(w, so) { "C06:partial-liquidation-size:slice-worth-more-than-open-notional" } else { "C06:partial-liquidation-size" },
                             format!("size {} -> {} expected decrease {} in {:?}", pp.size, p1.size, exp, so.act),
                         );
                     }
@@ -988,6 +1031,16 @@ pub fn oracle_c06_c07(w: &World, so: &StepObs, out: &mut StepOut, do6: bool, do7
 
 // --------------------------------------------------------------------------------------- C11
 pub fn oracle_c11(w: &World, so: &StepObs, out: &mut StepOut, cps: &CpRef) {
+    // the cumulative premium fraction of a vAMM moves only in a successful PayFunding on that vAMM
+    for v in 0..so.pre.vamms.len().min(so.post.vamms.len()) {
+        let settles_here = matches!(&so.act, Act::Fund { v: fv, .. } if *fv == v) && so.outcome.ok;
+        if !settles_here && so.pre.vamms[v].cum != so.post.vamms[v].cum {
+            out.viol(
+                format!("C11:cumulative-fraction-changed-outside-settlement:{}", so.act.kind()),
+                format!("vamm{} cumulative premium fraction {} -> {} by {:?}", v, so.pre.vamms[v].cum, so.post.vamms[v].cum, so.act),
+            );
+        }
+    }
     // stored checkpoint of a surviving position equals the current cumulative fraction after every
     // charging event (including the very first trade of a position)
     if so.outcome.ok {
